@@ -165,17 +165,13 @@ def cli_part(chk, tier):
     healthy = ('run_experiment(name="exp", run="echo exp >> %(log)s", deps=[":prep"])\n'
                'run_command(name="prep", run="echo prep >> %(log)s", deps=[":base"])\n'
                'run_command(name="base", run="echo base >> %(log)s")\n')
-    edits = [
-        ("cycle", 'deps=[":prep"])\nrun_command(name="base", run="echo base >> %(log)s")', None, "cycl"),
-    ]
     variants = {
-        "cycle below a cached task": (healthy.replace('run_command(name="base", run="echo base >> %(log)s")', 'run_command(name="base", run="echo base >> %(log)s", deps=[":prep"])'), "cycl"),
-        "undefined dependency below a cached task": (healthy.replace('deps=[":base"]', 'deps=[":base", ":gone"]'), "gone"),
-        "duplicate dependency below a cached task": (healthy.replace('deps=[":base"]', 'deps=[":base", "//:base"]'), "more than once"),
-        "self-loop below a cached task": (healthy.replace('run_command(name="base", run="echo base >> %(log)s")', 'run_command(name="base", run="echo base >> %(log)s", deps=[":base"])'), "cycl"),
+        "cycle below a cached task": (healthy.replace('run_command(name="base", run="echo base >> %(log)s")', 'run_command(name="base", run="echo base >> %(log)s", deps=[":prep"])'), None),
+        "undefined dependency below a cached task": (healthy.replace('deps=[":base"]', 'deps=[":base", ":gone"]'), None),
+        "duplicate dependency below a cached task": (healthy.replace('deps=[":base"]', 'deps=[":base", "//:base"]'), None),
+        "self-loop below a cached task": (healthy.replace('run_command(name="base", run="echo base >> %(log)s")', 'run_command(name="base", run="echo base >> %(log)s", deps=[":base"])'), None),
     }
-    del edits
-    for name, (text, needle) in variants.items():
+    for name, (text, _unused) in variants.items():
         root = implrun.make_project({"COND": ""})
         log = os.path.join(root, "spawn.log")
         open(os.path.join(root, "COND"), "w").write(healthy % {"log": log})
@@ -185,17 +181,20 @@ def cli_part(chk, tier):
             continue
         before = open(log).read()
         open(os.path.join(root, "COND"), "w").write(text % {"log": log})
+        diag = {}
         for argv in (["run", "//:exp"], ["run", "--check", "//:exp"], ["run", "//:exp", "--stop-early"]):
             r = implrun.run_cond(argv, root, timeout=60)
             chk.coverage["evaluations"] += 1
             chk.count("cli", name)
             out = strip_ansi(r.out + r.err)
             after = open(log).read()
+            first_error = next((l.strip() for l in out.splitlines() if l.strip().startswith("ERROR")), None)
+            diag[" ".join(argv)] = first_error
             problems = []
             if r.code == 0:
                 problems.append("exited 0 (%r)" % out[-200:])
-            elif needle.lower() not in out.lower():
-                problems.append("failed without naming the defect (%r expected in %r)" % (needle, out[-300:]))
+            elif first_error is None or "Traceback" in out:
+                problems.append("failed without an ERROR diagnostic (%r)" % out[-300:])
             if after != before:
                 problems.append("executed tasks: %r" % after[len(before):])
             for msg in problems:
@@ -204,6 +203,9 @@ def cli_part(chk, tier):
                                "impl_observation": {"exit": r.code, "output": out[-800:]}, "oracle_verdict": msg}, match_key={"cli": name}, size=3)
             if not problems:
                 chk.coverage["traces_validated_against_impl"] += 1
+        if len({d for d in diag.values() if d is not None}) > 1:
+            chk.violation("impl-violation", "a project with a %s is diagnosed differently with and without --check: %r" % (name, diag),
+                          {"input": {"part": "cli", "cond": text % {"log": "LOG"}}, "impl_observation": diag}, match_key={"cli": name}, size=3)
 
 
 def both_parts(chk, tier):
